@@ -5,7 +5,6 @@ import (
 
 	"github.com/btcsuite/btcd/btcec/v2/ecdsa"
 	"github.com/btcsuite/btcd/txscript/v2"
-	"verifharness/core"
 )
 
 // laxDerParses reports whether Bitcoin Core's ecdsa_signature_parse_der_lax accepts the byte string
@@ -115,22 +114,6 @@ func (P) ClassifyMismatch(line, goOut, leanOut string) string {
 		return ""
 	}
 	switch {
-	case goOut == "ok" && leanOut == "err" && s.flags&txscript.ScriptVerifyConstScriptCode != 0:
-		// F-C06-b: Core's FindAndDelete removes OP_0 for an empty signature and CONST_SCRIPTCODE then
-		// rejects the spend; btcd never deletes anything for an empty signature.
-		hasEmpty := false
-		for _, d := range spendData(s) {
-			if len(d) == 0 {
-				hasEmpty = true
-			}
-		}
-		if !hasEmpty {
-			return ""
-		}
-		outs, err := core.RunLean("C06", []string{"C06 core X " + strings.Join(f[2:], " ")})
-		if err == nil && len(outs) == 1 && outs[0] == "err:SIG_FINDANDDELETE" {
-			return "F-C06-b"
-		}
 	case goOut != leanOut && (goOut == "ok" || goOut == "err") && (leanOut == "ok" || leanOut == "err") &&
 		s.flags&(txscript.ScriptVerifyDERSignatures|txscript.ScriptVerifyStrictEncoding|txscript.ScriptVerifyLowS) == 0:
 		// F-C06-d: without DERSIG, Core parses signatures with its lax DER parser; btcd's BER parser
